@@ -12,13 +12,17 @@ THEOREMS = [
     "Mpir.Toom8.toom_eval_helpers_exact", "Mpir.Toom8.toom_couple_handling_val", "Mpir.Toom8.toom_interp16_exact",
     "Mpir.Toom8.toom_interp16_binvert", "Mpir.Toom8.toom8h_split_ok", "Mpir.Toom8.toom8h_exact",
     "Mpir.Toom8.toom8_sqr_exact", "Mpir.Toom8.toom8_sqr_exact_of_asserts",
+    "Mpir.Toom8.mpn_mul_n_exact_partial", "Mpir.Toom8.mpn_sqr_exact_partial",
 ]
 PINS = [("mpn/generic/toom8h_mul.c", None), ("mpn/generic/toom8_sqr_n.c", None), ("mpn/generic/toom_interpolate_16pts.c", None),
         ("mpn/generic/toom_eval_pm1.c", None), ("mpn/generic/toom_eval_dgr3_pm1.c", None), ("mpn/generic/toom_eval_pm2.c", None),
         ("mpn/generic/toom_eval_pm2exp.c", None), ("mpn/generic/toom_eval_pm2rexp.c", None), ("mpn/generic/toom_couple_handling.c", None)]
 TRUSTED = ["hand-written value-level model of Toom-8.5 / Toom-8 squaring and their helpers, lean/Mpir/Model/Toom8.lean (pinned to the nine C files; "
            "answers mpn_toom8h_mul / mpn_toom8_sqr_n (`!model` unless it yields the product) and toom_eval_* / toom_couple / toom_interp16 (limb for limb) on every check)"]
-ASSUMPTIONS = ["Toom-8.5: two's-complement storage of negative intermediates, the sign-extension repairs after mpn_divexact_by2835x64 / by255x4, carries of the "
+ASSUMPTIONS = ["mpn_mul_n_exact_partial / mpn_sqr_exact_partial are one step of the induction over sizes: recursive products inside every callee are replaced by the exact "
+               "product; leaves assumed: mpn_mul_basecase / mpn_sqr_basecase (C01_leaves), the FFT; mpn_kara_sqr_n / mpn_toom3_sqr_n / mpn_toom4_sqr_n are represented by the "
+               "model of the multiplication with b = a (differential only for their squaring-specific code)",
+               "Toom-8.5: two's-complement storage of negative intermediates, the sign-extension repairs after mpn_divexact_by2835x64 / by255x4, carries of the "
                "recomposition and the buffer layout (r_i inside pp / scratch) are covered by the differential run only; the decomposition (p, q, half, n) chosen "
                "inside mpn_toom8h_mul is not observable from outside: the model's cascade is tied by the source pin and by the product only"]
 RULE = ("toom8h: every shape (p,q,half) in {(7,7,0),(8,7,1),(8,6,0),(9,6,1),(9,5,0),(10,5,1),(10,4,0),(11,4,1),(11,3,0),(12,3,1)} at its smallest legal size and "
